@@ -1,0 +1,50 @@
+//go:build verif
+// +build verif
+
+// Accessors for the verification harness (/verif). Compiled only with -tags verif;
+// they add no behaviour to the library.
+
+package rpc
+
+import "time"
+
+// VerifSetTicker sets the private housekeeping period of the Transport. It must be
+// called before the Transport is first used.
+func (t *Transport) VerifSetTicker(d time.Duration) {
+	t.ticker = d
+}
+
+// VerifPoolSnapshot returns, per address, the connections in the active list
+// (in list order) and in the idle queue (front to rear), and each connection's
+// alive flag, under the pool lock.
+func (t *Transport) VerifPoolSnapshot() (active map[string][]*Conn, idle map[string][]*Conn, alive map[*Conn]bool) {
+	active = make(map[string][]*Conn)
+	idle = make(map[string][]*Conn)
+	alive = make(map[*Conn]bool)
+	t.connsMu.Lock()
+	defer t.connsMu.Unlock()
+	for addr, cs := range t.conns {
+		for _, pc := range cs.Conns {
+			active[addr] = append(active[addr], pc.Conn)
+			pc.mu.Lock()
+			alive[pc.Conn] = pc.alive
+			pc.mu.Unlock()
+		}
+	}
+	for addr, cq := range t.idleConns {
+		for n := cq.Front(); n != nil && n != cq.rear; n = n.next {
+			idle[addr] = append(idle[addr], n.value.Conn)
+			n.value.mu.Lock()
+			alive[n.value.Conn] = n.value.alive
+			n.value.mu.Unlock()
+		}
+	}
+	return
+}
+
+// VerifLimits returns the normalised limits of the Transport.
+func (t *Transport) VerifLimits() (maxConns, maxIdle int, keepAlive, idleTimeout time.Duration) {
+	t.connsMu.Lock()
+	defer t.connsMu.Unlock()
+	return t.MaxConnsPerHost, t.MaxIdleConnsPerHost, t.KeepAlive, t.IdleConnTimeout
+}
